@@ -17,6 +17,7 @@ EXPLANATION = (
     " (R5) `threads` is set per model but HiGHS sizes one scheduler per process: optimize() resets the scheduler when the requested count differs from the one last used; the class attribute recording that count is a tabled exception of R3 whose premise (read only in the test guarding the reset) is checked. "
     "Equality of results across histories as such is NOT decided - only that these channels are closed."
     ' (R1, round 3) `self.a += value` counts as an in-place extension of whatever self.a aliases when self.a is assigned a container in the same function.'
+    ' (R5, seeds 6) every solve() of a search wrapper restarts the clock its time limit is measured against, unconditionally and before the elapsed time is read.'
 )
 DECIDED = ["caller-owned graphs, option dicts, constraint and ignore lists are never written (alias + effect analysis)",
            "shared mutable defaults are never written", "no state shared between models through class attributes / globals"]
@@ -53,6 +54,7 @@ def check(prog: Program, rep):
     r3(prog, rep)
     r4(prog, rep, am)
     scheduler_reconciled(prog, rep)
+    run_clock_restarted(prog, rep)
 
 
 def mutable_default_params(f: FuncInfo) -> Dict[str, str]:
@@ -182,6 +184,35 @@ def scheduler_reconciled(prog, rep):
         rep.violation("C18.R5", key, "SolverWrapper sets the HiGHS option `threads` per instance but never reconciles the process-wide scheduler: a model asking for another "
                       "thread count than an earlier model of the process refuses to run, the status stays kNotset and the model (or the whole search over k) comes back "
                       "unsolved - its result depends on what was solved before", init.loc())
+
+
+def run_clock_restarted(prog, rep):
+    """The search wrappers measure `time_limit` against a clock kept on the model (`solve_time_start`).  It is state of one run: every solve() restarts it
+    unconditionally before anything reads the elapsed time - a clock that is started once per model makes a later solve() of the same, unchanged model
+    stop at once with 'time limit exceeded' (returns False after an earlier True): the result of a call depends on the history of the object."""
+    n = 0
+    for cls in prog.all_classes():
+        f = cls.methods.get("solve")
+        if f is None or f.cls is not cls:
+            continue
+        reads = [x for x in ast.walk(f.node) if isinstance(x, ast.Attribute) and norm(x) in ("self.solve_time_elapsed", "self.solve_time_start") and isinstance(x.ctx, ast.Load)]
+        stores = [st for st in ast.walk(f.node) if isinstance(st, ast.Assign) and any(norm(t) == "self.solve_time_start" for t in st.targets)]
+        if not stores and not any(norm(x) == "self.solve_time_elapsed" for x in reads):
+            continue
+        n += 1
+        key = f"{cls.name}.solve:run-clock-restarted"
+        top = [st for st in f.node.body if isinstance(st, ast.Assign) and any(norm(t) == "self.solve_time_start" for t in st.targets) and
+               isinstance(st.value, ast.Call) and (dotted(st.value.func) or "").endswith(("perf_counter", "time.time", "monotonic"))]
+        first_read = min([x.lineno for x in reads if not any(x is t for st in stores for t in st.targets)] or [10 ** 9])
+        if top and top[0].lineno < first_read:
+            rep.ok("C18.R5", key, "solve() restarts the clock of the run before it is read", f.loc(top[0]))
+        elif stores:
+            rep.violation("C18.R5", key, f"`{norm(stores[0])[:70]}` does not restart the clock on every solve() (it is conditional, or comes after the elapsed time was read): the time "
+                          "limit of a later solve() of the same model is measured from an earlier run - it returns False at once after an earlier True", f.loc(stores[0]))
+        else:
+            rep.violation("C18.R5", key, "solve() reads the elapsed time of a clock it never starts: the time limit is measured from an earlier call", f.loc())
+    if n < 4:
+        raise AnalysisError(f"search wrappers with a run clock: only {n} found")
 
 
 def r3(prog, rep):
